@@ -314,7 +314,8 @@ func mapOfSeries(ss ...*ref.Series) *gostatsd.MetricMap {
 // the monitor
 
 type checker struct {
-	r *mon.Run
+	r             *mon.Run
+	serverSampled bool
 }
 
 func hasDup(sorted []string) bool {
@@ -782,11 +783,24 @@ func corpus() []*tagCase {
 func TestCheck(t *testing.T) {
 	r := mon.Start(t, "C10")
 	defer r.Finish()
-	r.Rule("cases: a TagHandler built with NewTagHandler or NewTagHandlerFromViper (half each) from 0..4 filters (match-metrics 0..2, exclude-metrics 0..1, match-tags 0..2, drop-tags 0..3 patterns of the kinds exact, prefix*, !negated, regex: from a pool of valid RE2 expressions, plus the boundary patterns '', '*', '!', '!*'; actions drop-metric, drop-host) and 0..3 static tags (mostly equal to possible metric tags, duplicates allowed) receives 1..3 maps of 1..10 datapoints of all four types over a per-case alphabet of 2..4 names and 3..5 tags (duplicate tags within a metric allowed) and 0..1 events; shard 0 also runs a fixed corpus with the examples of FILTERING.md. One evaluation = one (configuration, map) pair: the outgoing map must equal the model (satisfaction on incoming name/tags; dropped iff a satisfied filter has drop-metric; tags = uniq(incoming - removed) + (static - removed); source cleared iff a satisfied filter has drop-host) folded with the reference merge where series coincide; tags compared as sets. Non-trivial: at least two filters of which, for some series, one is satisfied and one is not, or a collision after tag removal; distinct by (pattern kinds used, action mask, collision, mixed satisfaction).")
+	r.Rule("cases: a TagHandler built with NewTagHandler or NewTagHandlerFromViper (half each) from 0..4 filters (match-metrics 0..2, exclude-metrics 0..1, match-tags 0..2, drop-tags 0..3 patterns of the kinds exact, prefix*, !negated, regex: from a pool of valid RE2 expressions, plus the boundary patterns '', '*', '!', '!*'; actions drop-metric, drop-host) and 0..3 static tags (mostly equal to possible metric tags, duplicates allowed) receives 1..3 maps of 1..10 datapoints of all four types over a per-case alphabet of 2..4 names and 3..5 tags (duplicate tags within a metric allowed) and 0..1 events; shard 0 also runs a fixed corpus with the examples of FILTERING.md. One evaluation = one (configuration, map) pair: the outgoing map must equal the model (satisfaction on incoming name/tags; dropped iff a satisfied filter has drop-metric; tags = uniq(incoming - removed) + (static - removed); source cleared iff a satisfied filter has drop-host) folded with the reference merge where series coincide; tags compared as sets. Server phase: the real statsd.Server is run in process (RunWithCustomSocket, standalone) from a configuration text (toml: 0..3 filter blocks, an http server with enable-ingestion) with 0..2 static tags, in three quarters of the cases a fake cloud provider cache (1..3 senders, cached or looked up, found or not, whose instance tags are drawn from the metric tags, the static tags, the filters' targets and cloud-only tags), 0..6 statsd lines in UDP datagrams on a scripted socket and 0..6 datapoints posted as protobuf to /v2/raw, and a capturing backend; every series flushed to the backend must be the model's outcome for a datapoint sent (cloud tags and instance id are part of the metric before static tags and filters are applied, as the README orders the pipeline), without duplicate tags, and every outcome the model keeps must arrive. Non-trivial: at least two filters of which, for some series, one is satisfied and one is not, or a collision after tag removal; distinct by (pattern kinds used, action mask, collision, mixed satisfaction); for the server phase an instance tag meets a static tag, a metric tag or a filter target, or filtered/static-tagged metrics arrive over http, distinct by (cloud, overlap, paths used, pattern kinds, actions, something dropped).")
 	r.Assume("Go's regexp package defines what an RE2 expression matches; ref.Folded / ref.FromMap (harness); MetricMap.Receive builds the incoming maps")
 	c := &checker{r: r}
 
 	if p := r.ReplayPayload(); p != nil {
+		var probe struct {
+			Kind string `json:"kind"`
+		}
+		if mon.ReplayCase(p, &probe) != nil && probe.Kind == "server" {
+			var sc serverCase
+			mon.ReplayCase(p, &sc)
+			for i := 0; i < 3; i++ {
+				c.serverCase(&sc)
+			}
+			r.Nontrivial("replay-a")
+			r.Nontrivial("replay-b")
+			return
+		}
 		var cs tagCase
 		if mon.ReplayCase(p, &cs) == nil {
 			t.Skip("no case in replay file")
@@ -806,6 +820,15 @@ func TestCheck(t *testing.T) {
 		}
 		r.Event("corpus_cases", len(corpus()))
 	}
+	// the stage inside a real server (wiring, configuration text, cloud provider, both ingestion paths)
+	srng := r.Rand("c10-server")
+	nServer := r.N(240, 16000)
+	for i := 0; i < nServer; i++ {
+		sc := genServerCase(srng)
+		r.Case("server case %d: cloud=%v filters=%d static=%q udp=%d http=%d", i, sc.Cloud, len(sc.Filters), sc.Static, len(sc.UDP), len(sc.HTTP))
+		c.serverCase(sc)
+	}
+
 	rng := r.Rand("c10")
 	n := r.N(80000, 12000000)
 	for i := 0; i < n; i++ {
